@@ -142,8 +142,18 @@ fn wellformed(rng: &mut Rng) -> Vec<String> {
                     _ => gen::sparse_position(rng),
                 };
                 u.push("fen".into());
-                u.push(p.to_fen());
-                p
+                // a quarter of the FENs come without the two counters (valid four-field FEN)
+                if rng.chance(1, 4) {
+                    let mut q = p.clone();
+                    q.hmc = 0;
+                    q.fmn = 1;
+                    let f = q.to_fen();
+                    u.push(f.split_whitespace().take(4).collect::<Vec<_>>().join(" "));
+                    q
+                } else {
+                    u.push(p.to_fen());
+                    p
+                }
             };
             if rng.chance(2, 3) {
                 let (ms, _) = playout(&start, rng.below(12) as usize, rng, true);
@@ -207,17 +217,28 @@ fn mutate(units: &mut Vec<String>, rng: &mut Rng) {
     }
 }
 
-/// FEN arguments are assumed valid: if the line is `position fen ...`, what follows must
-/// be a complete valid FEN or too short to be taken for one.
-fn fen_rule_ok(line: &str) -> bool {
+/// FEN arguments are assumed valid. In `position fen ...` the FEN is what stands between
+/// `fen` and `moves` (or the end of the line). In scope: a valid FEN of four to six fields
+/// (four-field FENs, with default counters, are valid FEN), or a truncated argument list too
+/// short to be taken for a FEN at all. Anything else has an invalid FEN argument: regenerate.
+pub fn fen_rule_ok(line: &str) -> bool {
     let t: Vec<&str> = line.split_whitespace().collect();
     if t.len() >= 2 && t[0] == "position" && t[1] == "fen" {
         let rest = &t[2..];
-        if rest.len() < 6 {
-            return true;
+        let end = rest.iter().position(|x| *x == "moves").unwrap_or(rest.len());
+        if end < 4 {
+            return rest.len() < 6;
         }
-        return match Pos::from_fen(&rest[..6].join(" ")) {
-            Ok(p) => p.is_sane() && p.to_fen() == rest[..6].join(" "),
+        if end > 6 {
+            return false;
+        }
+        let fen = rest[..end].join(" ");
+        return match Pos::from_fen(&fen) {
+            Ok(p) => {
+                let full = p.to_fen();
+                let want: Vec<&str> = full.split_whitespace().collect();
+                p.is_sane() && rest[..end] == want[..end]
+            }
             Err(_) => false,
         };
     }
